@@ -56,3 +56,242 @@ Theorem ensure_unique_ids_invalid r g e :
   first_bad r = Some (g, e) -> ensure_unique r = Err (EIdsInvalid g e).
 Proof. intros H. unfold ensure_unique. rewrite dedup_sanity_spec, H. reflexivity. Qed.
 
+
+(** ** the ordered map *)
+Lemma path_eqb_sym a b : path_eqb a b = path_eqb b a.
+Proof.
+  destruct (path_eqb a b) eqn:E1, (path_eqb b a) eqn:E2; auto.
+  - apply path_eqb_eq in E1; subst. rewrite path_eqb_refl in E2; discriminate.
+  - apply path_eqb_eq in E2; subst. rewrite path_eqb_refl in E1; discriminate.
+Qed.
+
+Lemma items_get_insert_absent : forall (m : items) p v q,
+  items_get m p = None ->
+  items_get (items_insert m p v) q = if path_eqb p q then Some v else items_get m q.
+Proof.
+  induction m as [|[k v'] m IH]; intros p v q Hn; cbn [items_insert items_get].
+  - destruct (path_eqb p q); reflexivity.
+  - cbn [items_get] in Hn. destruct (path_eqb k p) eqn:Ekp; [discriminate|].
+    destruct (path_compare p k) eqn:C.
+    + apply path_compare_eq in C; subst. rewrite path_eqb_refl in Ekp; discriminate.
+    + cbn [items_get]. destruct (path_eqb p q); reflexivity.
+    + cbn [items_get]. destruct (path_eqb k q) eqn:Ekq.
+      * destruct (path_eqb p q) eqn:Epq; auto.
+        apply path_eqb_eq in Ekq, Epq; subst. rewrite path_eqb_refl in Ekp; discriminate.
+      * apply IH; assumption.
+Qed.
+
+Section Loop.
+  Variable r : registry.
+  Variable s : settings.
+  Variable teq : N -> N -> result bool.
+  Variable flat : flat_registry.
+
+  (** what the loop does with one entry, given the current map *)
+  Inductive action :=
+  | Skip                         (* substituted, prelude / builtin, or not a struct/enum *)
+  | Insert (ir : type_ir)
+  | Keep (other : N)             (* path occupied, judged equal *).
+
+  Definition eligible (t : ty) : bool :=
+    negb (subs_contains (s_subs s) (t_path t)) &&
+    match namespace (t_path t) with [] => false | _ => true end.
+
+  (** one unfolding of the loop, as an equation *)
+  Lemma gen_loop_cons id t l acc :
+    gen_loop r s teq flat ((id, t) :: l) acc =
+    if subs_contains (s_subs s) (t_path t) then gen_loop r s teq flat l acc
+    else match namespace (t_path t) with
+         | [] => gen_loop r s teq flat l acc
+         | ns =>
+             let* o := create_type_ir r s t flat in
+             match o with
+             | None => gen_loop r s teq flat l acc
+             | Some ir =>
+                 if forallb ident_lexb ns then
+                   match items_get acc (t_path t) with
+                   | None => gen_loop r s teq flat l (items_insert acc (t_path t) (id, ir))
+                   | Some (other, _) =>
+                       let* eq := teq id other in
+                       if eq then gen_loop r s teq flat l acc
+                       else Err (EDuplicatePath (join "::" (t_path t)))
+                   end
+                 else Panic "Ident::new: not an identifier"
+             end
+         end.
+  Proof. reflexivity. Qed.
+
+  (** keep-first: an occupied path is never overwritten *)
+  Lemma gen_loop_keeps : forall l acc m p v,
+    gen_loop r s teq flat l acc = Ok m -> items_get acc p = Some v -> items_get m p = Some v.
+  Proof.
+    induction l as [|[id t] l IH]; intros acc m p v H Hg.
+    - cbn in H. inversion H; subst; assumption.
+    - rewrite gen_loop_cons in H.
+      destruct (subs_contains (s_subs s) (t_path t)); [eapply IH; eauto|].
+      destruct (namespace (t_path t)) as [|n0 ns]; [eapply IH; eauto|].
+      destruct (create_type_ir r s t flat) as [[ir|]|e|msg]; cbn [bind] in H; try discriminate;
+        [|eapply IH; eauto].
+      destruct (forallb ident_lexb (n0 :: ns)); [|discriminate].
+      destruct (items_get acc (t_path t)) as [[other ir']|] eqn:G.
+      + destruct (teq id other) as [[|]|e|msg]; cbn [bind] in H; try discriminate.
+        eapply IH; eauto.
+      + eapply IH; [exact H|].
+        rewrite items_get_insert_absent by assumption.
+        destruct (path_eqb (t_path t) p) eqn:E; [|assumption].
+        apply path_eqb_eq in E; subst. congruence.
+  Qed.
+
+  (** C07: a substituted path is never defined *)
+  Lemma gen_loop_no_subst : forall l acc m,
+    gen_loop r s teq flat l acc = Ok m ->
+    (forall p v, items_get acc p = Some v -> subs_contains (s_subs s) p = false) ->
+    forall p v, items_get m p = Some v -> subs_contains (s_subs s) p = false.
+  Proof.
+    induction l as [|[id t] l IH]; intros acc m H Hacc p v Hm.
+    - cbn in H. inversion H; subst. eapply Hacc; eauto.
+    - rewrite gen_loop_cons in H.
+      destruct (subs_contains (s_subs s) (t_path t)) eqn:Sub; [eapply IH; eauto|].
+      destruct (namespace (t_path t)) as [|n0 ns]; [eapply IH; eauto|].
+      destruct (create_type_ir r s t flat) as [[ir|]|e|msg]; cbn [bind] in H; try discriminate;
+        [|eapply IH; eauto].
+      destruct (forallb ident_lexb (n0 :: ns)); [|discriminate].
+      destruct (items_get acc (t_path t)) as [[other ir']|] eqn:G.
+      + destruct (teq id other) as [[|]|e|msg]; cbn [bind] in H; try discriminate.
+        eapply IH; eauto.
+      + eapply IH; [exact H| |exact Hm].
+        intros p' v' Hp'. rewrite items_get_insert_absent in Hp' by assumption.
+        destruct (path_eqb (t_path t) p') eqn:E; [|eapply Hacc; eauto].
+        apply path_eqb_eq in E; subst. assumption.
+  Qed.
+
+  (** every key of the result is the path of an entry the loop made an item of *)
+  Lemma gen_loop_keys : forall l acc m p id ir,
+    gen_loop r s teq flat l acc = Ok m -> items_get m p = Some (id, ir) ->
+    items_get acc p = Some (id, ir) \/
+    exists t, In (id, t) l /\ t_path t = p /\ eligible t = true /\
+              create_type_ir r s t flat = Ok (Some ir).
+  Proof.
+    induction l as [|[id0 t] l IH]; intros acc m p id ir H Hm.
+    - cbn in H. inversion H; subst. left; assumption.
+    - rewrite gen_loop_cons in H.
+      assert (Hrec : forall acc', gen_loop r s teq flat l acc' = Ok m ->
+                (items_get acc' p = Some (id, ir) \/
+                 exists t0, In (id, t0) l /\ t_path t0 = p /\ eligible t0 = true /\
+                            create_type_ir r s t0 flat = Ok (Some ir))).
+      { intros acc' H'. eapply IH; eauto. }
+      assert (Hlift : forall (P : Prop), (items_get acc p = Some (id, ir) \/
+                 exists t0, In (id, t0) l /\ t_path t0 = p /\ eligible t0 = true /\
+                            create_type_ir r s t0 flat = Ok (Some ir)) ->
+                items_get acc p = Some (id, ir) \/
+                exists t0, In (id, t0) ((id0, t) :: l) /\ t_path t0 = p /\ eligible t0 = true /\
+                           create_type_ir r s t0 flat = Ok (Some ir)).
+      { intros _ [Ha|(t0 & Hin & Hr)]; [left; assumption|right; exists t0; split; [right; assumption|assumption]]. }
+      destruct (subs_contains (s_subs s) (t_path t)) eqn:Sub; [apply (Hlift True), Hrec; assumption|].
+      destruct (namespace (t_path t)) as [|n0 ns] eqn:Ns; [apply (Hlift True), Hrec; assumption|].
+      destruct (create_type_ir r s t flat) as [[ir0|]|e|msg] eqn:Cti; cbn [bind] in H; try discriminate;
+        [|apply (Hlift True), Hrec; assumption].
+      destruct (forallb ident_lexb (n0 :: ns)); [|discriminate].
+      destruct (items_get acc (t_path t)) as [[other ir']|] eqn:G.
+      + destruct (teq id0 other) as [[|]|e|msg]; cbn [bind] in H; try discriminate.
+        apply (Hlift True), Hrec; assumption.
+      + destruct (Hrec _ H) as [Ha|Hex]; [|apply (Hlift True); right; assumption].
+        rewrite items_get_insert_absent in Ha by assumption.
+        destruct (path_eqb (t_path t) p) eqn:E; [|left; assumption].
+        apply path_eqb_eq in E. inversion Ha; subst.
+        right. exists t. split; [left; reflexivity|]. split; [reflexivity|]. split; [|assumption].
+        unfold eligible. rewrite Sub, Ns. reflexivity.
+  Qed.
+End Loop.
+
+Theorem generate_never_defines_substituted r s teq m p v :
+  generate r s teq = Ok m -> items_get m p = Some v -> subs_contains (s_subs s) p = false.
+Proof.
+  unfold generate. intros H Hm.
+  apply bind_ok in H as (u & _ & H). apply bind_ok in H as (flat & _ & H).
+  eapply gen_loop_no_subst; eauto. cbn. discriminate.
+Qed.
+
+Theorem generate_items_come_from_entries r s teq m p id ir :
+  generate r s teq = Ok m -> items_get m p = Some (id, ir) ->
+  exists t flat, In (id, t) r /\ t_path t = p /\ eligible s t = true /\
+                 flatten (s_dreg s) r = Ok flat /\ create_type_ir r s t flat = Ok (Some ir).
+Proof.
+  unfold generate. intros H Hm.
+  apply bind_ok in H as (u & _ & H). apply bind_ok in H as (flat & Hf & H).
+  destruct (gen_loop_keys r s teq flat r [] m p id ir H Hm) as [Ha|(t & Hin & Hp & He & Hc)].
+  - cbn in Ha. discriminate.
+  - exists t, flat. auto.
+Qed.
+
+(** ** small facts used by several properties *)
+Section Small.
+  Variable r : registry.
+  Variable s : settings.
+
+  (** C07: a rule without generics hands the resolved arguments through *)
+  Lemma for_path_passthrough path params sub :
+    subs_get (s_subs s) path = Some sub -> su_map sub = PassThrough ->
+    for_path_with_params s path params = Some (Ok (TPath (print_spath (su_path sub)) params)).
+  Proof. intros H1 H2. unfold for_path_with_params. rewrite H1, H2. reflexivity. Qed.
+
+  (** C07: every struct/enum reference goes through the substitute lookup *)
+  Lemma maybe_subst_substituted path params sub :
+    subs_get (s_subs s) path = Some sub ->
+    exists x, for_path_with_params s path params = Some x /\
+              type_path_maybe_with_substitutes s path params = x.
+  Proof.
+    intros H. unfold type_path_maybe_with_substitutes, for_path_with_params. rewrite H.
+    eexists; split; reflexivity.
+  Qed.
+
+  (** C09: the docs switch *)
+  Lemma docs_switch docs :
+    docs_from_scale_info s docs = if s_docs s then docs else [].
+  Proof. reflexivity. Qed.
+
+  (** C18 / C08: derives of a standalone struct *)
+  Lemma upcast_derives c :
+    ti_derives (upcast_composite s c) =
+    if could_derive_as_compact (ci_kind c) then add_as_compact s (dr_default (s_dreg s))
+    else dr_default (s_dreg s).
+  Proof. unfold upcast_composite. destruct (could_derive_as_compact (ci_kind c)); reflexivity. Qed.
+
+  Lemma upcast_shape c :
+    ti_params (upcast_composite s c) = [] /\ ti_unused (upcast_composite s c) = [] /\
+    ti_kind (upcast_composite s c) = KStruct c /\ ti_codec (upcast_composite s c) = s_codec s.
+  Proof. unfold upcast_composite. repeat split. Qed.
+
+  Lemma mark_used_nil used : mark_used [] used = [].
+  Proof. reflexivity. Qed.
+
+  (** with no declared parameters the composite kind does not depend on the parameter state *)
+  Lemma composite_kind_no_params fs k u :
+    create_composite_ir_kind r s fs [] [] = Ok (k, u) -> u = [].
+  Proof.
+    unfold create_composite_ir_kind. destruct fs as [|f fs]; [intros H; inversion H; reflexivity|].
+    destruct (negb (all_named (f :: fs) || all_unnamed (f :: fs))); [discriminate|].
+    destruct (all_named (f :: fs)).
+    - intros H. apply bind_ok in H as (l & _ & H). inversion H; reflexivity.
+    - intros H. apply bind_ok in H as (l & _ & H). inversion H; reflexivity.
+  Qed.
+End Small.
+
+(** C18: for a type without (non-skipped) parameters the struct body inside its item is
+    literally what [create_composite_ir_kind] gives for the field list with empty parameters *)
+Theorem struct_item_fields_standalone r s t flat ir fs :
+  params_from_scale_info (t_params t) = [] -> t_def t = TDComposite fs ->
+  create_type_ir r s t flat = Ok (Some ir) ->
+  exists c, ti_kind ir = KStruct c /\ create_composite_ir_kind r s fs [] [] = Ok (ci_kind c, []) /\
+            ti_params ir = [] /\ ti_unused ir = [].
+Proof.
+  intros Hp Hd H. unfold create_type_ir in H. rewrite Hd, Hp in H. cbn [is_composite_or_variant negb] in H.
+  destruct (path_ident (t_path t)) as [nm|]; [|discriminate].
+  apply bind_ok in H as (name & _ & H).
+  apply bind_ok in H as ([[kind cdac] unused] & Hk & H).
+  apply bind_ok in Hk as ([k u] & Hc & Hk). cbn [fst snd] in Hk.
+  pose proof (composite_kind_no_params r s fs k u Hc) as Hu.
+  inversion Hk; subst; clear Hk.
+  apply bind_ok in H as (d & _ & H). inversion H; subst; clear H. cbn [ti_kind ti_params ti_unused].
+  eexists; split; [reflexivity|]. cbn [ci_kind]. auto.
+Qed.
